@@ -66,8 +66,32 @@ PROGS = [
     ('exit-forms', 'FOR i% = 1 TO 9\nIF i% = 3 THEN EXIT FOR\nNEXT\nDO\nEXIT DO\nLOOP\nPRINT i%'),
     ('single-line-if', 'a% = 1\nIF a% = 1 THEN PRINT "y" ELSE PRINT "n"\nIF a% = 2 THEN PRINT "y" ELSE PRINT "n"'),
     ('print-using', 'PRINT USING "##.#"; 2.25\nPRINT USING "&"; "s"'),
+    ('arrays-same-elem-type', 'DIM a(2) AS INTEGER\nDIM b(20) AS INTEGER\nDIM s AS STRING\nDIM c(1 TO 2, 1 TO 9) AS INTEGER\ns = "x"\nb(20) = 5\nc(2, 9) = 7\na(2) = 1\nPRINT a(2); b(20); c(2, 9); s; LEN(s)'),
+    ('arrays-in-sub', 'SUB t\nDIM p(1) AS LONG\nDIM q(30) AS LONG\nDIM z AS STRING\nz = "k"\nq(30) = 9\nPRINT p(0); q(30); z\nEND SUB\nt\nt'),
+    ('arrays-shared', 'DIM SHARED g1(3) AS DOUBLE\nDIM SHARED g2(40) AS DOUBLE\nDIM SHARED gs AS STRING\ngs = "g"\ng2(40) = 2.5\nPRINT g1(3); g2(40); gs'),
+    ('tail-calls', 'SUB a1\nDIM x AS INTEGER\nx = 5\nb1\nEND SUB\nSUB b1\nDIM y AS INTEGER\ny = 4\nPRINT y\nEND SUB\nSUB c1\nDIM w AS STRING\nw = "c"\na1\nPRINT w; LEN(w)\nEND SUB\nc1\nGOSUB l1\nEND\nl1:\nGOSUB l2\nRETURN\nl2:\nPRINT "l2"\nRETURN'),
     ('const-deftype', 'DEFINT A-C\nCONST k = 5\na = k * 2\nPRINT a'),
 ]
+
+def nearmiss_programs():
+    """argument/parameter type pairs: most are rejected at compile time (then nothing
+    is run); whatever the compiler ACCEPTS must be safe under the monitor"""
+    progs = []
+    tcs = ['%', '&', '!', '#', '$']
+    for pt in tcs:
+        for at in tcs:
+            inc = f'p{pt} = p{pt} + "x"' if pt == '$' else f'p{pt} = p{pt} + 1'
+            init = f'a{at} = "s"' if at == '$' else f'a{at} = 1'
+            progs.append((f'byref:{at}->{pt}',
+                          f'SUB s(p{pt})\n{inc}\nPRINT p{pt}\nEND SUB\n{init}\ns a{at}\nPRINT a{at}\n'
+                          f'b{at} = a{at}\nPRINT b{at}'))
+            progs.append((f'byref-fn:{at}->{pt}',
+                          f'FUNCTION f{pt}(p{pt})\n{inc}\nf{pt} = p{pt}\nEND FUNCTION\n{init}\n'
+                          f'r{pt} = f{pt}(a{at})\nPRINT r{pt}; a{at}'))
+            progs.append((f'assign:{at}->{pt}',
+                          f'{init}\nv{pt} = a{at}\nPRINT v{pt}'))
+    return progs
+
 
 # programs that violate the property on the unchanged tree (known findings)
 BAD_PROGS = [
@@ -78,8 +102,8 @@ BAD_PROGS = [
     ('D21-resume-next-mid-expression', 'ON ERROR GOTO h\na% = 0\nPRINT 5 + (1 \\ a%)\nPRINT "after"\nEND\nh:\nRESUME NEXT'),
 ]
 
-KIND = {1: 'ill-typed-operands', 2: 'forbidden-trap', 3: 'cell-type', 4: 'pc-not-boundary',
-        5: 'stack-depth-at-statement', 6: 'host-crash'}
+KIND = {6: 'access-outside-segment', 1: 'ill-typed-operands', 2: 'forbidden-trap', 3: 'cell-type', 4: 'pc-not-boundary',
+        5: 'stack-depth-at-statement'}
 
 
 def main(tier, seed):
@@ -112,13 +136,17 @@ def main(tier, seed):
             for dbg in (True, False):
                 cases.append({'src': src, 'level': level, 'debug': dbg, 'tag': tag, 'bad': False,
                               'script': SCRIPT, 'max_ticks': 20000})
+    for tag, src in nearmiss_programs():
+        for level in (0, 2):
+            cases.append({'src': src, 'level': level, 'debug': True, 'tag': tag, 'bad': False,
+                          'nearmiss': True, 'script': SCRIPT, 'max_ticks': 20000})
     for tag, src in BAD_PROGS:
         for level in (0, 2):
             cases.append({'src': src, 'level': level, 'debug': True, 'tag': tag, 'bad': True,
                           'script': SCRIPT, 'max_ticks': 20000})
     ctx.rule.append(f'{len(cprogs)} corpus programs + {len(matrix_programs())} operator/type-matrix programs '
                     f'(18 binary operators x 16 numeric type pairs with operands in variables, unary ops, builtins, strings) '
-                    f'+ {len(PROGS)} control/memory programs + {len(BAD_PROGS)} known-bad programs, x levels x debug; '
+                    f'+ {len(PROGS)} control/memory programs + {len(nearmiss_programs())} argument/parameter/assignment type-pair programs (run only if the compiler accepts them) + {len(BAD_PROGS)} known-bad programs, x levels x debug; '
                     'each run is replayed by the extracted monitor: static decode + targets, then per tick: eff premise, '
                     'forbidden traps, declared cell types, pc boundary, stack depth at statement starts; non-trivial = distinct (program, configuration)')
     raws = vlib.run_impl('machfn.run_case_cert', cases)
@@ -136,6 +164,8 @@ def main(tier, seed):
         elif isinstance(r, dict) and r.get('harness'):
             ctx.broken.append('correspondence monitor: worker failed ' + r.get('stderr', '')[-200:])
             return ctx.finish()
+        elif c.get('nearmiss') and r.get('exc') in ('CompileError', 'SyntaxError'):
+            ctx.bump('nearmiss:rejected-at-compile-time')
         else:
             ctx.report(f'C03/compile-failed({r.get("exc")},{c["tag"]})',
                        {'src': c['src'], 'level': c['level'], 'impl': r}, False)
@@ -165,8 +195,8 @@ def main(tier, seed):
                        {'src': c['src'], 'level': c['level'], 'debug': c['debug'], 'targets': bad}, True)
         seen = set()
         for (tick, kind, pc, detail) in viol:
-            if kind == 6:
-                continue      # host crashes are C07's subject
+            if kind == 6 and detail != 1:
+                continue      # host crashes other than IndexError (access outside a segment) are C07's subject
             if kind in seen:
                 continue
             seen.add(kind)
